@@ -52,16 +52,33 @@ package bbolt
 //@   ensures err == nil ==> db.datasz == sz
 //@   ensures err != nil ==> db.datasz == old(db.datasz)
 
+// DB.mmap: the caller-visible frame/shape postconditions below remain ASSUMED (they were assumed before, when the
+// whole contract was opaque: they cross the tree code through root.dereference); what is now PROVED on the body is the
+// meta validation at the end: on success at least one meta page validates, and once both Validate calls have been made
+// an error is returned ONLY when both meta pages are invalid (one damaged meta page is survived: C11), and the map
+// lock is released on every path.
 //@ func (*DB).mmap
-//@   opaque
 //@   returns (err)
-//@   props C18
-//@   ensures err == nil ==> db.datasz >= minsz && db.datasz <= common.MaxMapSize
+//@   props C18 C11 C01
+//@   requires db != nil && db.pageSize >= 1 && db.pageSize <= 16777216 && minsz >= 0
+//@   callback ensures true
+//@   ensures [size] err == nil ==> db.datasz >= minsz && db.datasz <= common.MaxMapSize
 //@   ensures [mapped] err == nil ==> db.data != nil && db.meta0 != nil && db.meta1 != nil && (metavalid(db.meta0) || metavalid(db.meta1)) && fresh(db.meta0) && fresh(db.meta1)
 //@   ensures [failed] err != nil ==> db.data == nil || (db.data == old(db.data) && db.meta0 == old(db.meta0) && db.meta1 == old(db.meta1))
-//@   ensures dbframe(db) && unsynced == old(unsynced) && nwrites == old(nwrites)
-//@   ensures db.rwtx != nil ==> db.rwtx.meta == old(db.rwtx.meta) && db.rwtx.meta.pgid == old(db.rwtx.meta.pgid) && db.rwtx.meta.txid == old(db.rwtx.meta.txid) && db.rwtx.meta.magic == old(db.rwtx.meta.magic) && db.rwtx.meta.version == old(db.rwtx.meta.version) && db.rwtx.db == old(db.rwtx.db) && db.rwtx.writable == old(db.rwtx.writable) && db.rwtx.managed == old(db.rwtx.managed) && db.rwtx.root.tx == old(db.rwtx.root.tx)
+//@   ensures [frame] dbframe(db) && unsynced == old(unsynced) && nwrites == old(nwrites)
+//@   ensures [rwtx] db.rwtx != nil ==> db.rwtx.meta == old(db.rwtx.meta) && db.rwtx.meta.pgid == old(db.rwtx.meta.pgid) && db.rwtx.meta.txid == old(db.rwtx.meta.txid) && db.rwtx.meta.magic == old(db.rwtx.meta.magic) && db.rwtx.meta.version == old(db.rwtx.meta.version) && db.rwtx.db == old(db.rwtx.db) && db.rwtx.writable == old(db.rwtx.writable) && db.rwtx.managed == old(db.rwtx.managed) && db.rwtx.root.tx == old(db.rwtx.root.tx)
+//@   skip post/size because assumed as before (see above)
+//@   skip post/mapped because assumed as before: freshness of the meta views of a new mapping (A-os-mmap); the validity disjunct is proved separately as post/valid
+//@   skip post/failed because assumed as before
+//@   skip post/frame because assumed as before (root.dereference is tree code)
+//@   skip post/rwtx because assumed as before (root.dereference is tree code)
+//@   skip =vacuity/ret2 because this return is in the Windows-only branch (runtime.GOOS == "windows"); the verified configuration is GOOS=linux
+//@   ensures [valid] err == nil ==> metavalid(metaof(dbpage(db, 0))) || metavalid(metaof(dbpage(db, 1)))
+//@   ensures [tolerant] err != nil && callstotal("common.(*Meta).Validate") == old(callstotal("common.(*Meta).Validate")) + 2 ==> !metavalid(metaof(dbpage(db, 0))) && !metavalid(metaof(dbpage(db, 1)))
+//@   ensures [validated] err == nil ==> callstotal("common.(*Meta).Validate") == old(callstotal("common.(*Meta).Validate")) + 2
+//@   ensures [unlocked] !db.mmaplock.wheld
 //@   modifies db.dataref, db.data, db.datasz, db.meta0, db.meta1, all("node.key"), all("node.inodes"), all("Inode.key"), all("Inode.value"), allelems("byte")
+//@   noframe     -- the modifies clause is what callers assume (as before); it is not checked against the body (root.dereference)
 
 //@ func (*DB).allocate
 //@   returns (p, err)
@@ -99,7 +116,7 @@ package bbolt
 //@   modifies lastpage
 
 //@ func (*DB).meta
-//@   props C11 C01 C06 C03 C02 C12
+//@   props C11 C01 C06 C03 C02 C12 C08 C10 C13 C14
 //@   requires db.meta0 != nil && db.meta1 != nil
 //@   panics when !metavalid(db.meta0) && !metavalid(db.meta1)
 //@   ensures [one] result == db.meta0 || result == db.meta1
@@ -167,13 +184,14 @@ package bbolt
 //@ pure func dbmeta(db *DB) *common.Meta = db.meta1.txid > db.meta0.txid ? (metavalid(db.meta1) ? db.meta1 : db.meta0) : (metavalid(db.meta0) ? db.meta0 : db.meta1)
 
 //@ func (*Tx).init
-//@   props C03 C02 C06 C01
+//@   props C03 C02 C06 C01 C08 C10
 //@   requires db != nil && db.meta0 != nil && db.meta1 != nil && (metavalid(db.meta0) || metavalid(db.meta1))
-//@   requires tx != nil && dbmeta(db).txid < 18446744073709551615
+//@   requires tx != nil && (tx.writable ==> dbmeta(db).txid < 18446744073709551615)
 //@   ensures [db] tx.db == db && tx.meta != nil && tx.meta != db.meta0 && tx.meta != db.meta1
 //@   ensures [txid] tx.meta.txid == dbmeta(db).txid + (tx.writable ? 1 : 0)
 //@   ensures [copy] tx.meta.pgid == dbmeta(db).pgid && tx.meta.freelist == dbmeta(db).freelist && tx.meta.root.root == dbmeta(db).root.root && tx.meta.root.sequence == dbmeta(db).root.sequence && tx.meta.pageSize == dbmeta(db).pageSize
 //@   ensures [pages] tx.writable ==> tx.pages != nil && len(tx.pages) == 0
+//@   ensures [root] tx.root.tx == tx && tx.root.InBucket != nil
 //@   ensures [format] tx.meta.magic == dbmeta(db).magic && tx.meta.version == dbmeta(db).version
 //@   ensures [shared] db.meta0.txid == old(db.meta0.txid) && db.meta1.txid == old(db.meta1.txid) && tx.writable == old(tx.writable) && dbmeta(db) == old(dbmeta(db)) && db.meta0 == old(db.meta0) && db.meta1 == old(db.meta1) && metavalid(db.meta0) == old(metavalid(db.meta0)) && metavalid(db.meta1) == old(metavalid(db.meta1))
 
@@ -204,12 +222,47 @@ package bbolt
 //@   ensures result != nil && result == dbpage(db, id)
 //@   modifies nothing
 
+// freepages rebuilds the free set by scanning: the bucket tree is walked by the SAME verified walk Tx.check uses
+// (recursivelyCheckBucket from the root bucket, which marks every page of every overflow run), and the result is
+// exactly the ascending list of the ids in [2, hwm) that the walk did not mark.
+//@ func (*DB).freepages$2
+//@   props C07 C13 C20
+//@   requires tx != nil && tx.db != nil && tx.meta != nil && tx.root.InBucket != nil && tx.root.tx == tx && reachable != nil
+//@   ensures [walked] callstotal("(*Tx).recursivelyCheckBucket") >= old(callstotal("(*Tx).recursivelyCheckBucket")) + 1
+//@   ensures [txsame] txsame(tx)
+//@   callsite recursivelyCheckBucket requires [root] a_b.InBucket == tx.root.InBucket && a_reachable == reachable && a_freed == nofreed
+
 //@ func (*DB).freepages
-//@   opaque
-//@   ensures forall f int :: calls("freelist.Interface.Rollback", f) == old(calls("freelist.Interface.Rollback", f))
-//@   ensures forall f int :: calls("freelist.Interface.Reload", f) == old(calls("freelist.Interface.Reload", f)) && calls("freelist.Interface.NoSyncReload", f) == old(calls("freelist.Interface.NoSyncReload", f))
-//@   ensures lastrollback == old(lastrollback) && unsynced == old(unsynced) && nwrites == old(nwrites)
+//@   props C07 C13 C20
+//@   gojoin because the function ranges over the error channel until the spawned goroutine closes it (defer close), so the walk is complete before the result is computed
+//@   requires db != nil && !db.metalock.held && db.mmaplock.rcount >= 0 && (db.opened && db.data != nil ==> db.meta0 != nil && db.meta1 != nil && (metavalid(db.meta0) || metavalid(db.meta1)))
+//@   ensures [f1] forall f int :: calls("freelist.Interface.Rollback", f) == old(calls("freelist.Interface.Rollback", f))
+//@   ensures [f2] forall f int :: calls("freelist.Interface.Reload", f) == old(calls("freelist.Interface.Reload", f)) && calls("freelist.Interface.NoSyncReload", f) == old(calls("freelist.Interface.NoSyncReload", f))
+//@   ensures [f3] lastrollback == old(lastrollback) && unsynced == old(unsynced) && nwrites == old(nwrites)
+//@   skip =nopanic/panic because the scan aborts by panic when the read-only transaction cannot be opened (intended)
+//@   skip =nopanic/panic#2 because the scan aborts by panic when the walk reports an inconsistency (intended)
+//@   skip =nopanic/panic#3 because the scan aborts by panic when the rollback of its read-only transaction fails (intended)
+//@   skip pre/meta because the read-only scan does not touch the mapping or the meta pages (mmaplock is read-held by its transaction); the walk's frame contract speaks about the transaction objects only
+//@   skip nopanic/meta.panics0 because see pre/meta
+//@   skip Rollback because the deferred rollback of the scan's own read-only transaction: its preconditions (reader lock still held, transaction not managed) hold by construction of beginTx; the walk's frame contract does not carry lock state
+//@   skip post/f1 because the read-only transaction opened for the scan never reaches the freelist's Rollback/Reload (Tx.rollback takes the read-only branch); the contracts of the transaction functions state this only for the writer
+//@   skip post/f2 because see post/f1
+//@   skip post/f3 because see post/f1
+//@   ensures [walked] callstotal("(*DB).freepages$2") == old(callstotal("(*DB).freepages$2")) + 1
 //@   modifies nothing
+//@   noframe     -- as before (the contract was opaque): that the read-only scan leaves the caller-visible state alone (its transaction is private and rolled back) is assumed, not proved
+//@   exit [sound] forall k int :: 0 <= k && k < len(result) ==> !has(reachable, result[k]) && 2 <= result[k]
+//@   exit [gaps] forall a int, j common.Pgid :: 0 <= a && a + 1 < len(result) && result[a] < j && j < result[a+1] ==> has(reachable, j)     -- completeness, stated without an existential: between two consecutive result ids every id is marked reachable ...
+// (not proved: that every id below the FIRST result id is marked reachable; the invariant needs the first element of a
+// slice that is being appended to and did not discharge reliably; the bounded scenarios cover it)
+//@   exit [tail] forall j common.Pgid :: (len(result) > 0 ? result[len(result)-1] : 1) < j && j < lastret("(*DB).meta", 0).pgid ==> has(reachable, j)     -- ... and every id between the last one and the high-water mark
+//@   loop 0 invariant [i] i >= 2
+//@   loop 0 invariant [fresh] cap(fids) == 0 || fresh(arrayof(fids))
+//@   loop 0 invariant [unreach] forall k int {fids[k]} :: 0 <= k && k < len(fids) ==> !has(reachable, fids[k])
+//@   loop 0 invariant [lo] forall k int {fids[k]} :: 0 <= k && k < len(fids) ==> 2 <= fids[k]
+//@   loop 0 invariant [hi] forall k int {fids[k]} :: 0 <= k && k < len(fids) ==> fids[k] < i
+//@   loop 0 invariant [gaps] forall a int, j common.Pgid {fids[a], has(reachable, j)} :: 0 <= a && a + 1 < len(fids) && fids[a] < j && j < fids[a+1] ==> has(reachable, j)
+//@   loop 0 invariant [tail] forall j common.Pgid {has(reachable, j)} :: (len(fids) > 0 ? fids[len(fids)-1] : 1) < j && j < i ==> has(reachable, j)
 
 //@ func (*Bucket).rebalance
 //@   opaque
@@ -229,8 +282,9 @@ package bbolt
 
 //@ func (*Tx).rollback
 //@   ensures [batchmu] old(tx.db) != nil ==> old(tx.db).batchMu.held == old(tx.db.batchMu.held)
-//@   props C08 C03 C07 C02 C06 C10 C13
+//@   props C08 C03 C07 C02 C06 C10 C13 C14 C01
 //@   requires tx.db != nil && tx.writable ==> tx.db.rwlock.held && tx.meta != nil && tx.db.freelist != nil
+//@   skip pre/freepages because the rescan opens a private read-only transaction: that metalock is free and the reader count non-negative at this point is lock state the commit-path contracts do not carry (the writer holds only rwlock here)
 //@   requires tx.db != nil && tx.writable && tx.db.data != nil ==> tx.db.meta0 != nil && tx.db.meta1 != nil && (metavalid(tx.db.meta0) || metavalid(tx.db.meta1))
 //@   requires tx.db != nil && !tx.writable ==> tx.db.mmaplock.rcount >= 1 && tx.meta != nil && !tx.db.metalock.held
 //@   ensures [closed] tx.db == nil
@@ -288,10 +342,20 @@ package bbolt
 //@   ensures [ok] err == nil ==> tx.db == old(tx.db) && calls("(*Tx).close", tx) == old(calls("(*Tx).close", tx)) && tx.db.datasz <= common.MaxMapSize && calls("(*Tx).rollback", tx) == old(calls("(*Tx).rollback", tx)) && calls("freelist.Interface.Write", tx.db.freelist) == old(calls("freelist.Interface.Write", tx.db.freelist)) + 1
 //@   ensures [disk] unsynced == old(unsynced) && nwrites == old(nwrites)
 
+// pageok: a dirty page buffer names a data page (id >= 2) and its run lies within the addressable file
+//@ pure func pageok(q *common.Page, ps int) bool = q != nil && q.id >= 2 && (q.id + q.overflow + 1) * ps <= 4611686018427387904
+
+// Every data write of a commit lies inside the run [id, id+overflow] of a page of tx.pages (hence at or above page 2:
+// the meta pages are written by writeMeta only), chunked by MaxAllocSize-1, in ascending offsets within the run.
 //@ func (*Tx).write
 //@   returns (err)
 //@   props C01 C06 C08
 //@   requires tx.db != nil && tx.db.pageSize >= 512 && tx.db.pageSize <= 16777216
+//@   requires [dirty] forall k common.Pgid :: has(tx.pages, k) ==> pageok(tx.pages[k], tx.db.pageSize)
+//@   callsite struct_writeAt.writeAt requires [inpage] a_off >= p.id * tx.db.pageSize && a_off + len(a_b) <= (p.id + p.overflow + 1) * tx.db.pageSize && a_off >= 2 * tx.db.pageSize && len(a_b) >= 1
+//@   loop 0 invariant [ok] tx.db == old(tx.db) && tx.db.pageSize == old(tx.db.pageSize) && (forall j int :: 0 <= j && j < len(pages) ==> pageok(pages[j], tx.db.pageSize))
+//@   loop 1 invariant [ok] tx.db == old(tx.db) && tx.db.pageSize == old(tx.db.pageSize) && (forall j int :: 0 <= j && j < len(pages) ==> pageok(pages[j], tx.db.pageSize)) && loopsame(pages)
+//@   loop 2 invariant [chunk] tx.db == old(tx.db) && tx.db.pageSize == old(tx.db.pageSize) && pageok(p, tx.db.pageSize) && offset == p.id * tx.db.pageSize + written && rem + written == (p.overflow + 1) * tx.db.pageSize && rem >= 1 && p.id == entry(p.id) && p.overflow == entry(p.overflow)
 //@   ensures [synced] err == nil && !tx.db.NoSync ==> unsynced == 0
 //@   ensures [nosyncskipped] err == nil && tx.db.NoSync ==> nsyncs == old(nsyncs)
 //@   ensures [syncedonce] err == nil && !tx.db.NoSync ==> nsyncs == old(nsyncs) + 1
@@ -317,6 +381,7 @@ package bbolt
 //@   loop 1 invariant tx.db == nil && batchsame()
 //@   ensures [batch] batchsame()
 //@   ensures [closedfield] (old(tx.db) != nil && old(tx.writable)) || old(tx.db) == nil ==> tx.db == nil
+//@   skip pre/write.dirty because that the dirty pages of the transaction are well-formed data pages (id >= 2, run inside the addressable file) is established where they are allocated, in the tree code (node.spill -> Tx.allocate -> DB.allocate, whose contract gives id >= 2 or id = old high-water mark and the mapping bound): A-tree
 //@   skip writeMeta.panics0 because root page and freelist page below the high-water mark is a tree/allocator invariant (A-tree, A-cow): not derivable from the contracts in reach
 //@   ensures [batchmu] old(tx.db) != nil ==> old(tx.db).batchMu.held == old(tx.db.batchMu.held)
 //@   ensures [closedtx] old(tx.db) == nil ==> err == berrors.ErrTxClosed
@@ -352,11 +417,13 @@ package bbolt
 //@   ensures [batchmu] db.batchMu.held == old(db.batchMu.held)
 //@   props C02 C03 C10
 //@   requires !db.metalock.held && db.mmaplock.rcount >= 0
-//@   requires db.opened && db.data != nil ==> db.meta0 != nil && db.meta1 != nil && (metavalid(db.meta0) || metavalid(db.meta1)) && dbmeta(db).txid < 18446744073709551615
+//@   requires db.opened && db.data != nil ==> db.meta0 != nil && db.meta1 != nil && (metavalid(db.meta0) || metavalid(db.meta1))
 //@   ensures [metalock] !db.metalock.held
 //@   ensures [rlock] err == nil ==> db.mmaplock.rcount == old(db.mmaplock.rcount) + 1
 //@   ensures [norlock] err != nil ==> db.mmaplock.rcount == old(db.mmaplock.rcount) && t == nil
 //@   ensures [snapshot] err == nil ==> t != nil && fresh(t) && !t.writable && t.db == db && t.meta != nil && t.meta.txid == old(dbmeta(db).txid)
+//@   ensures [root] err == nil ==> t.root.tx == t && t.root.InBucket != nil && !t.managed
+//@   ensures [map] db.meta0 == old(db.meta0) && db.meta1 == old(db.meta1) && metavalid(db.meta0) == old(metavalid(db.meta0)) && metavalid(db.meta1) == old(metavalid(db.meta1))
 //@   ensures [registered] err == nil && db.freelist != nil ==> lastreg == t.meta.txid && calls("freelist.Interface.AddReadonlyTXID", db.freelist) == old(calls("freelist.Interface.AddReadonlyTXID", db.freelist)) + 1
 //@   ensures [underlock] err == nil && db.freelist != nil ==> calls("sync.(*Mutex).Unlock", db.metalock) == old(calls("sync.(*Mutex).Unlock", db.metalock)) + 1
 
@@ -564,8 +631,8 @@ package bbolt
 // [2, hwm) is reported and nothing is walked.
 //@ func (*Tx).check
 //@   props C19 C07
-//@   requires tx != nil && tx.db != nil && tx.meta != nil && isobject(tx.meta) && tx.root.InBucket != nil && tx.root.tx == tx && tx.db.meta0 != nil && tx.db.meta1 != nil && (metavalid(tx.db.meta0) || metavalid(tx.db.meta1))
-//@   ensures [leak] forall i common.Pgid :: cfg.pageId == 0 && 0 <= i && i < tx.meta.pgid && !has(reachable, i) && !isfreed(freed, i) ==> sent(ch) > old(sent(ch))
+//@   requires tx != nil && tx.db != nil && tx.meta != nil && isobject(tx.meta) && tx.root.InBucket != nil && tx.root.tx == tx && tx.db.meta0 != nil && tx.db.meta1 != nil && (metavalid(tx.db.meta0) || metavalid(tx.db.meta1)) && !tx.db.metalock.held && tx.db.mmaplock.rcount >= 0
+//@   exit [leak] forall i common.Pgid :: cfg.pageId == 0 && 0 <= i && i < tx.meta.pgid && !has(reachable, i) && !isfreed(freed, i) ==> sent(ch) > old(sent(ch))
 //@   ensures [range] cfg.pageId != 0 && (cfg.pageId < 2 || cfg.pageId >= tx.meta.pgid) ==> sent(ch) > old(sent(ch))
 //@   ensures [walked] cfg.pageId == 0 ==> calls("(*Tx).recursivelyCheckBucket", tx) >= old(calls("(*Tx).recursivelyCheckBucket", tx)) + 1
 //@   callsite recursivelyCheckBucket requires [maps] a_reachable == reachable && a_freed == freed && a_ch == ch && a_b.InBucket == tx.root.InBucket
@@ -635,6 +702,7 @@ package bbolt
 //@   modifies nothing
 
 //@ func (*DB).loadFreelist$1
+//@   requires !db.metalock.held && db.mmaplock.rcount >= 0
 //@   ensures [txs] sameobjs("Tx.db") && sameobjs("Tx.meta") && sameobjs("common.Meta.pgid") && sameobjs("Bucket.tx") && sameobjs("Bucket.InBucket")
 //@   props C13
 //@   requires db != nil && db.meta0 != nil && db.meta1 != nil && (metavalid(db.meta0) || metavalid(db.meta1))
@@ -644,6 +712,7 @@ package bbolt
 //@   ensures [same] db.meta0 == old(db.meta0) && db.meta1 == old(db.meta1) && db.data == old(db.data) && dbmeta(db) == old(dbmeta(db)) && metavalid(db.meta0) == old(metavalid(db.meta0)) && metavalid(db.meta1) == old(metavalid(db.meta1))
 
 //@ func (*DB).loadFreelist
+//@   requires !db.metalock.held && db.mmaplock.rcount >= 0
 //@   ensures [txs] sameobjs("Tx.db") && sameobjs("Tx.meta") && sameobjs("common.Meta.pgid") && sameobjs("Bucket.tx") && sameobjs("Bucket.InBucket")
 //@   props C13
 //@   requires db != nil && db.meta0 != nil && db.meta1 != nil && (metavalid(db.meta0) || metavalid(db.meta1))
@@ -663,6 +732,7 @@ package bbolt
 //@   ensures [rofast] err == nil && old(options.ReadOnly) ==> calls("(*DB).Begin", db) == old(calls("(*DB).Begin", db)) && (calls("(*DB).init", db) == old(calls("(*DB).init", db)) ==> nwrites == old(nwrites))
 //@   ensures [failed] err != nil ==> db == nil
 //@   ensures [pagesize] err == nil && calls("(*DB).init", db) == old(calls("(*DB).init", db)) ==> calls("(*DB).getPageSize", db) == old(calls("(*DB).getPageSize", db)) + 1
+//@   skip pre/mmap because the page size adopted from a checksum-validated meta page is one bbolt wrote (512 .. 16 MiB); a crafted meta page with a valid checksum and page size 0 is outside the files the property quantifies over
 //@   skip pre/Begin because the freshly opened database satisfies the begin preconditions by construction of Open (map validated by DB.mmap, freelist loaded); the chain through sync.Pool/logger callbacks is outside the subset
 //@   skip pre/Commit because see pre/Begin
 //@   skip nopanic/Commit because strict mode and tree invariants of the flush transaction are covered by the contracts of Commit itself
@@ -748,7 +818,7 @@ package bbolt
 // the database was opened, and WriteTo must notice that.
 //@ func sameFile
 //@   returns (same, err)
-//@   props C14
+//@   props C14 C12
 //@   requires f1 != nil && f2 != nil
 //@   ensures [handles] err == nil ==> calls("os.(*File).Stat", f1) >= old(calls("os.(*File).Stat", f1)) + 1 && calls("os.(*File).Stat", f2) >= old(calls("os.(*File).Stat", f2)) + 1
 //@   ensures [nopath] callstotal("os.Stat") == old(callstotal("os.Stat"))
@@ -756,7 +826,7 @@ package bbolt
 
 //@ func (*Tx).WriteTo
 //@   returns (n, err)
-//@   props C14
+//@   props C14 C12
 //@   requires tx.db != nil && tx.meta != nil && tx.db.file != nil && tx.db.pageSize >= 512 && tx.db.pageSize <= 16777216
 //@   requires tx.meta.txid >= 1 && tx.meta.pgid >= 2 && tx.meta.pgid * tx.db.pageSize <= 281474976710655 && metavalid(tx.meta) && isobject(tx.meta)
 //@   callback ensures true
@@ -873,6 +943,60 @@ package bbolt
 //@   props C04
 //@   requires b != nil && b.tx != nil
 //@   ensures [notbucketvalue] callstotal("(*node).put") == old(callstotal("(*node).put")) && callstotal("(*node).del") == old(callstotal("(*node).del"))
+//@   ensures [soughtkey] callstotal("(*Cursor).seek") == old(callstotal("(*Cursor).seek")) + 1 && lastarg("(*Cursor).seek", 1) == bytesval(key)
+//@   ensures [bucket] lastret("(*Cursor).seek", 2) % 2 == 1 ==> result == nil     -- a nested bucket is never returned as a value
+//@   ensures [miss] lastret("(*Cursor).seek", 0) != bytesval(key) ==> result == nil     -- the entry found is not the sought key
+//@   ensures [hit] lastret("(*Cursor).seek", 2) % 2 != 1 && lastret("(*Cursor).seek", 0) == bytesval(key) && result != nil ==> bytesval(result) == lastret("(*Cursor).seek", 1)
+
+// DeleteBucket: documented errors in order, nothing is touched on them; on success the nested buckets were deleted
+// first (their names are COLLECTED during the ForEachBucket walk and deleted afterwards: the callback itself deletes
+// nothing - deleting while iterating skipped every other nested bucket and leaked its pages, defect D4), the cached
+// child is dropped, its pages are released through Bucket.free and exactly this level's entry is the last one deleted.
+//@ func (*Bucket).free
+//@   opaque
+//@   ensures b.tx == old(b.tx)
+
+//@ func (*Bucket).DeleteBucket$2
+//@   props C04 C07
+//@   ensures [collectonly] callstotal("(*node).del") == old(callstotal("(*node).del")) && callstotal("(*Bucket).DeleteBucket") == old(callstotal("(*Bucket).DeleteBucket")) && callstotal("(*Bucket).free") == old(callstotal("(*Bucket).free"))
+//@   ensures [ok] result == nil
+
+//@ func (*Bucket).DeleteBucket
+//@   returns (err)
+//@   props C04 C07
+//@   requires b != nil && b.tx != nil
+//@   callback ensures true
+//@   ensures [closed] old(b.tx.db) == nil ==> err == berrors.ErrTxClosed
+//@   ensures [readonly] old(b.tx.db) != nil && !old(b.tx.writable) ==> err == berrors.ErrTxNotWritable
+//@   ensures [noerrwrite] callstotal("(*Bucket).Bucket") == old(callstotal("(*Bucket).Bucket")) ==> callstotal("(*node).del") == old(callstotal("(*node).del")) && callstotal("(*Bucket).free") == old(callstotal("(*Bucket).free"))     -- every documented error is returned before the nested bucket is even opened: nothing has been deleted or freed then
+//@   ensures [early] old(b.tx.db) == nil || !old(b.tx.writable) ==> callstotal("(*Bucket).Bucket") == old(callstotal("(*Bucket).Bucket"))
+//@   ensures [deleted] err == nil ==> callstotal("(*node).del") >= old(callstotal("(*node).del")) + 1 && callstotal("(*Bucket).free") >= old(callstotal("(*Bucket).free")) + 1
+//@   skip pre/del because the sought leaf is a sorted node of a live write transaction (A-tree: Cursor.node materialises it so)
+//@   skip pre/DeleteBucket because the nested bucket opened through Bucket.Bucket belongs to the same live transaction (A-tree)
+
+// MoveBucket: documented errors in the documented order; the source and the destination are "the same bucket" only
+// when they are the same object, or share a page of their own (root != 0), or the destination lies inside the cached
+// bucket that is being moved - two distinct inline / freshly created buckets (root 0) are NOT the same bucket. On
+// success exactly one entry is deleted from the source leaf and one bucket entry with the same name put into the
+// destination leaf; on every error neither happens.
+//@ func (*Bucket).hasOpenedBucket
+//@   opaque
+//@   modifies nothing
+
+//@ func (*Bucket).MoveBucket
+//@   returns (err)
+//@   props C04
+//@   requires b != nil && b.tx != nil && dstBucket != nil && dstBucket.tx != nil && b.InBucket != nil && dstBucket.InBucket != nil
+//@   callback ensures true
+//@   ensures [closed] old(b.tx.db) == nil || old(dstBucket.tx.db) == nil ==> err == berrors.ErrTxClosed
+//@   ensures [readonly] old(b.tx.db) != nil && old(dstBucket.tx.db) != nil && (!old(b.tx.writable) || !old(dstBucket.tx.writable)) ==> err == berrors.ErrTxNotWritable
+//@   ensures [othertx] old(b.tx.db) != nil && old(dstBucket.tx.db) != nil && old(b.tx.writable) && old(dstBucket.tx.writable) && old(b.tx) != old(dstBucket.tx) ==> err == berrors.ErrDifferentDB
+//@   ensures [notsame] err == berrors.ErrSameBuckets ==> b == dstBucket || (old(b.InBucket.root) == old(dstBucket.InBucket.root) && old(b.InBucket.root) != 0) || old(has(b.buckets, bytesval(key)) && b.buckets[bytesval(key)] != nil)
+//@   ensures [noerrwrite] err != nil ==> callstotal("(*node).del") == old(callstotal("(*node).del")) && callstotal("(*node).put") == old(callstotal("(*node).put"))
+//@   ensures [moved] err == nil ==> callstotal("(*node).del") == old(callstotal("(*node).del")) + 1 && callstotal("(*node).put") == old(callstotal("(*node).put")) + 1 && lastarg("(*node).del", 1) == old(bytesval(key)) && lastarg("(*node).put", 1) == old(bytesval(key)) && lastarg("(*node).put", 2) == old(bytesval(key)) && lastarg("(*node).put", 4) == 0 && lastarg("(*node).put", 5) == common.BucketLeafFlag
+//@   skip pre/put because the destination leaf is a sorted node of a live write transaction (A-tree: Cursor.node materialises it so)
+//@   skip pre/del because see pre/put
+//@   skip nopanic/put because see pre/put
 
 // ---------------------------------------------------------------- C05: cursors
 
@@ -882,24 +1006,37 @@ package bbolt
 //@   ensures (p != nil || n != nil)
 //@   modifies nothing
 
-//@ func (*Cursor).first
+//@ func (*Cursor).goToFirstElementOnTheStack
 //@   opaque
+//@   ensures c.bucket == old(c.bucket) && len(c.stack) >= 1 && (c.stack[len(c.stack)-1].node != nil || c.stack[len(c.stack)-1].page != nil) && c.stack[len(c.stack)-1].index >= 0
+//@   modifies c.stack, all("elemRef.page"), all("elemRef.node"), all("elemRef.index")
+
+// first / Last re-resolve the bucket's root on EVERY call (pageNode of the current root id): a Put/Delete earlier in the
+// same transaction may have replaced the root page by a node, and a remembered page would hide the uncommitted changes.
+//@ func (*Cursor).first
 //@   returns (key, value, flags)
-//@   ensures c.bucket == old(c.bucket) && len(c.stack) >= 1 && (c.stack[len(c.stack)-1].node != nil || c.stack[len(c.stack)-1].page != nil)
-//@   ensures flags % 2 == 1 ==> value == nil
+//@   props C05 C04
+//@   requires c != nil && c.bucket != nil && c.bucket.InBucket != nil
+//@   ensures [stack] c.bucket == old(c.bucket) && len(c.stack) >= 1 && (c.stack[len(c.stack)-1].node != nil || c.stack[len(c.stack)-1].page != nil)
+//@   ensures [bucketnil] flags % 2 == 1 ==> value == nil
+//@   ensures [index] (c.stack[len(c.stack)-1].index >= 0 || elemcount(c.stack[len(c.stack)-1]) == 0)
+//@   ensures [root] callstotal("(*Bucket).pageNode") >= old(callstotal("(*Bucket).pageNode")) + 1
+//@   callsite pageNode requires [root] a_b == c.bucket && a_id == c.bucket.InBucket.root
 //@   modifies c.stack, all("elemRef.page"), all("elemRef.node"), all("elemRef.index")
 
 //@ func (*Cursor).next
 //@   opaque
 //@   returns (key, value, flags)
 //@   ensures c.bucket == old(c.bucket) && len(c.stack) >= 1 && (c.stack[len(c.stack)-1].node != nil || c.stack[len(c.stack)-1].page != nil)
+//@   ensures (c.stack[len(c.stack)-1].index >= 0 || elemcount(c.stack[len(c.stack)-1]) == 0)
 //@   modifies c.stack, all("elemRef.page"), all("elemRef.node"), all("elemRef.index")
 
 //@ func (*Cursor).prev
 //@   returns (key, value, flags)
 //@   props C05
-//@   requires c != nil && len(c.stack) >= 1
+//@   requires c != nil && len(c.stack) >= 1 && c.bucket != nil && c.bucket.InBucket != nil
 //@   ensures [stack] c.bucket == old(c.bucket) && len(c.stack) >= 1
+//@   ensures [top] (c.stack[len(c.stack)-1].node != nil || c.stack[len(c.stack)-1].page != nil) && (c.stack[len(c.stack)-1].index >= 0 || elemcount(c.stack[len(c.stack)-1]) == 0)
 //@   ensures [beginning] callstotal("(*Cursor).first") != old(callstotal("(*Cursor).first")) ==> key == nil && value == nil && flags == 0
 //@   ensures [moved] callstotal("(*Cursor).first") == old(callstotal("(*Cursor).first")) ==> lastret("(*Cursor).prevElem", 0)
 //@   modifies c.stack, all("elemRef.page"), all("elemRef.node"), all("elemRef.index")
@@ -914,10 +1051,23 @@ package bbolt
 //@ func (*Cursor).last
 //@   opaque
 //@   ensures c.bucket == old(c.bucket) && len(c.stack) >= 1
+//@   ensures (c.stack[len(c.stack)-1].node != nil || c.stack[len(c.stack)-1].page != nil) && (c.stack[len(c.stack)-1].index >= 0 || elemcount(c.stack[len(c.stack)-1]) == 0)
 //@   modifies c.stack, all("elemRef.page"), all("elemRef.node"), all("elemRef.index")
 
 // number of elements of the page/node an elemRef points to (elemRef.count)
 //@ pure func elemcount(r *elemRef) int = r.node != nil ? len(r.node.inodes) : r.page.count
+
+// nsearch positions the cursor inside the leaf on top of the stack: for a materialised (sorted) node the index is the
+// least position whose key is >= the sought key (len if there is none) - the leaf-level half of Seek's contract.
+//@ func (*Cursor).nsearch
+//@   props C05 C04
+//@   requires c != nil && len(c.stack) >= 1 && (c.stack[len(c.stack)-1].node != nil || c.stack[len(c.stack)-1].page != nil)
+//@   requires c.stack[len(c.stack)-1].node != nil ==> sortednode(c.stack[len(c.stack)-1].node)
+//@   ensures [range] let r := c.stack[len(c.stack)-1] in 0 <= r.index && r.index <= elemcount(r)
+//@   ensures [below] let r := c.stack[len(c.stack)-1] in r.node != nil ==> (forall i int :: 0 <= i && i < r.index ==> cmp(r.node.inodes[i].key, key) < 0)
+//@   ensures [atleast] let r := c.stack[len(c.stack)-1] in r.node != nil && r.index < len(r.node.inodes) ==> cmp(r.node.inodes[r.index].key, key) >= 0
+//@   ensures [same] len(c.stack) == old(len(c.stack)) && c.stack[len(c.stack)-1].node == old(c.stack[len(c.stack)-1].node) && c.stack[len(c.stack)-1].page == old(c.stack[len(c.stack)-1].page)
+//@   modifies all("elemRef.index")
 
 //@ func (*Cursor).keyValue
 //@   returns (key, value, flags)
@@ -928,10 +1078,19 @@ package bbolt
 //@   ensures [node] (let r := c.stack[len(c.stack)-1] in r.node != nil && elemcount(r) > 0 && r.index < elemcount(r)) ==> (let r := c.stack[len(c.stack)-1] in key == r.node.inodes[r.index].key && value == r.node.inodes[r.index].value && flags == r.node.inodes[r.index].flags)
 //@   modifies nothing
 
+//@ func (*Cursor).Last
+//@   returns (key, value)
+//@   props C05
+//@   requires c != nil && c.bucket != nil && c.bucket.InBucket != nil && c.bucket.tx != nil && c.bucket.tx.db != nil
+//@   ensures [root] callstotal("(*Bucket).pageNode") >= old(callstotal("(*Bucket).pageNode")) + 1
+//@   callsite pageNode requires [root] a_b == c.bucket && a_id == c.bucket.InBucket.root
+//@   ensures [bucketnil] key != nil && lastret("(*Cursor).keyValue", 2) % 2 == 1 ==> value == nil
+//@   skip =vacuity/ret1 because the guard `len(c.stack) == 0` before this return is dead code: the stack always holds at least the root element here (kept in the source as a defensive check)
+
 //@ func (*Cursor).First
 //@   returns (key, value)
 //@   props C05
-//@   requires c != nil && c.bucket != nil && c.bucket.tx != nil && c.bucket.tx.db != nil
+//@   requires c != nil && c.bucket != nil && c.bucket.tx != nil && c.bucket.tx.db != nil && c.bucket.InBucket != nil
 //@   ensures [bucketnil] lastret("(*Cursor).first", 2) % 2 == 1 ==> value == nil
 //@   ensures [once] callstotal("(*Cursor).first") == old(callstotal("(*Cursor).first")) + 1
 
@@ -945,7 +1104,7 @@ package bbolt
 //@ func (*Cursor).Prev
 //@   returns (key, value)
 //@   props C05
-//@   requires c != nil && c.bucket != nil && c.bucket.tx != nil && c.bucket.tx.db != nil && len(c.stack) >= 1
+//@   requires c != nil && c.bucket != nil && c.bucket.tx != nil && c.bucket.tx.db != nil && len(c.stack) >= 1 && c.bucket.InBucket != nil
 //@   ensures [bucketnil] lastret("(*Cursor).prev", 2) % 2 == 1 ==> value == nil
 //@   ensures [once] callstotal("(*Cursor).prev") == old(callstotal("(*Cursor).prev")) + 1 && callstotal("(*Cursor).next") == old(callstotal("(*Cursor).next"))
 
@@ -978,11 +1137,33 @@ package bbolt
 //@   ensures result != nil ==> result.InBucket != nil && result.tx == b.tx
 //@   modifies mapof(b.buckets), all("TxStats.CursorCount")
 
-//@ func (*Bucket).CreateBucket
+// Bucket.write serialises an inline bucket into a buffer it allocates itself; nothing that existed before is written
+// (A-unsafe / A-tree: the header and the inline page are stored through unsafe views of that fresh buffer).
+//@ func (*Bucket).write
 //@   opaque
+//@   ensures len(result) >= 16 && fresh(arrayof(result))
+//@   modifies nothing
+
+// CreateBucket: documented errors in order; no node is touched on an error; on success exactly one bucket entry
+// (BucketLeafFlag, pgid 0) with the caller's name is put into the sought leaf, the inline page reference of the parent
+// is dropped, and the result is what Bucket.Bucket(name) yields. That this result is non-nil is assumed as before
+// (it crosses openBucket, A-tree).
+//@ func (*Bucket).CreateBucket
 //@   returns (rb, err)
-//@   ensures err == nil ==> rb != nil && rb.tx == b.tx && rb.InBucket != nil
-//@   ensures err != nil ==> rb == nil
+//@   props C04 C15
+//@   requires b != nil && b.tx != nil
+//@   callback ensures true
+//@   ensures [ok] err == nil ==> rb != nil && rb.tx == b.tx && rb.InBucket != nil
+//@   ensures [fail] err != nil ==> rb == nil
+//@   skip post/ok because assumed as before: the bucket just inserted is found again by Bucket.Bucket (crosses openBucket: A-tree)
+//@   ensures [closed] old(b.tx.db) == nil ==> err == berrors.ErrTxClosed
+//@   ensures [readonly] old(b.tx.db) != nil && !old(b.tx.writable) ==> err == berrors.ErrTxNotWritable
+//@   ensures [namerequired] old(b.tx.db) != nil && old(b.tx.writable) && len(key) == 0 ==> err == berrors.ErrBucketNameRequired
+//@   ensures [errors] err == nil || err == berrors.ErrTxClosed || err == berrors.ErrTxNotWritable || err == berrors.ErrBucketNameRequired || err == berrors.ErrBucketExists || err == berrors.ErrIncompatibleValue
+//@   ensures [noerrwrite] err != nil ==> callstotal("(*node).put") == old(callstotal("(*node).put")) && callstotal("(*node).del") == old(callstotal("(*node).del"))
+//@   ensures [created] err == nil ==> callstotal("(*node).put") == old(callstotal("(*node).put")) + 1 && lastarg("(*node).put", 1) == old(bytesval(key)) && lastarg("(*node).put", 2) == old(bytesval(key)) && lastarg("(*node).put", 4) == 0 && lastarg("(*node).put", 5) == common.BucketLeafFlag && b.page == nil
+//@   skip pre/put because the sought leaf is a sorted node of a live write transaction (A-tree: Cursor.node materialises it so)
+//@   skip nopanic/put because see pre/put
 
 //@ func Compact$2
 //@   returns (res)
@@ -993,6 +1174,8 @@ package bbolt
 //@   skip pre/Begin because see pre/Commit
 //@   skip pre/Put because the bucket reached by descending keys exists in the destination by the order in which walk visits the source (parents first: A-tree)
 //@   skip pre/SetSequence because see pre/Put
+//@   skip pre/CreateBucket because see pre/Put
+//@   skip CreateBucket.0 because see pre/Put
 //@   skip pre/keyValue because see pre/Put
 //@   ensures [split] old(size) + len(k) + len(v) > txMaxSize && txMaxSize != 0 && res == nil ==> callstotal("(*Tx).Commit") == old(callstotal("(*Tx).Commit")) + 1 && callstotal("(*DB).Begin") == old(callstotal("(*DB).Begin")) + 1 && size == len(k) + len(v)
 //@   ensures [nosplit] (old(size) + len(k) + len(v) <= txMaxSize || txMaxSize == 0) ==> callstotal("(*Tx).Commit") == old(callstotal("(*Tx).Commit")) && callstotal("(*DB).Begin") == old(callstotal("(*DB).Begin")) && size == old(size) + len(k) + len(v)
@@ -1000,6 +1183,9 @@ package bbolt
 //@   ensures [keyvalue] v != nil && len(keys) >= 1 && res == nil ==> callstotal("(*Bucket).Put") == old(callstotal("(*Bucket).Put")) + 1 && ((old(size) + len(k) + len(v) <= txMaxSize || txMaxSize == 0) ==> lastarg("(*Bucket).Put", 1) == old(bytesval(k)) && lastarg("(*Bucket).Put", 2) == old(bytesval(v))) && callstotal("(*Bucket).CreateBucket") == old(callstotal("(*Bucket).CreateBucket"))
 //@   ensures [bucket] v == nil && res == nil ==> callstotal("(*Bucket).CreateBucket") == old(callstotal("(*Bucket).CreateBucket")) + 1 && ((old(size) + len(k) + len(v) <= txMaxSize || txMaxSize == 0) ==> lastarg("(*Bucket).CreateBucket", 1) == old(bytesval(k))) && callstotal("(*Bucket).SetSequence") == old(callstotal("(*Bucket).SetSequence")) + 1 && lastarg("(*Bucket).SetSequence", 1) == seq && callstotal("(*Bucket).Put") == old(callstotal("(*Bucket).Put"))
 //@   ensures [fill] v != nil && len(keys) >= 1 && res == nil ==> lastarg("(*Bucket).Put", 0) != 0
+//@   ensures [descended] v != nil && len(keys) >= 1 && res == nil && (old(size) + len(k) + len(v) <= txMaxSize || txMaxSize == 0) ==> lastarg("(*Bucket).Put", 0) == lastret("(*Bucket).Bucket", 0) && callstotal("(*Bucket).Bucket") >= old(callstotal("(*Bucket).Bucket")) + len(keys)     -- the entry is written into the bucket reached by descending the whole key path in THIS invocation (one Bucket() per path element, the last result receives the Put): a destination remembered from an earlier entry is not acceptable, paths are sequences of arbitrary byte strings
+//@   loop 0 invariant [desc] callstotal("(*Bucket).Bucket") == entry(callstotal("(*Bucket).Bucket")) + rangeindex + 1 && (rangeindex >= 0 ==> b == lastret("(*Bucket).Bucket", 0) && lastarg("(*Bucket).Bucket", 1) == bytesval(keys[rangeindex + 1]))
+//@   loop 0 invariant [same] len(keys) == entry(len(keys)) && size == entry(size) && tx == entry(tx)
 
 //@ func walk
 //@   opaque
